@@ -845,7 +845,12 @@ def check_saved(impl, shadow, prop, step, op, deep, second_save):
             return viol
         if second_save:
             before = tree_digest(path)
-            impl.font.save()
+            try:
+                impl.font.save()
+            except Exception as e:
+                viol.append(dict(clause="C06/second-save-raised", signature="C06/second-save-raised/%s" % type(e).__name__,
+                                 step=step, op=op, error=str(e)[:300]))
+                return viol
             after = tree_digest(path)
             if before != after:
                 ch = sorted(k for k in set(before) | set(after) if before.get(k) != after.get(k))
@@ -911,6 +916,9 @@ def run_case(case, prop):
                 stats["f31_after_load"] = len(known_only)
                 carry = known_only
         carry = locals().get("carry", [])
+        # "whenever the font is not dirty its UFO on disk equals memory": `persisted` is the content the UFO at the font's
+        # path was last SEEN to hold (the UFO the font was opened from; after a save that passed the read-back oracle)
+        persisted = strip_order(fg.expected_dump(shadow.s)) if case.get("origin", "disk") == "disk" else None
         for i, op in enumerate(case["ops"]):
             was_dirty = bool(impl.font.dirty)
             try:
@@ -937,6 +945,8 @@ def run_case(case, prop):
                     continue
                 nsaves += 1
                 viol.extend(check_saved(impl, shadow, prop, i, op, deep=(nsaves % 2 == 1), second_save=(nsaves % 2 == 0)))
+                if not viol:
+                    persisted = strip_order(fg.expected_dump(shadow.s))
                 continue
             if (status == "ok") != bool(ok_expected):
                 viol.append(dict(clause="%s/op-outcome" % prop, signature="%s/op-outcome/%s" % (prop, op[0]), step=i, op=op,
@@ -944,6 +954,13 @@ def run_case(case, prop):
             elif flag_dropped:
                 stats["flag_dropped_outside_save"] = stats.get("flag_dropped_outside_save", 0) + 1
                 viol.extend(check_clean_is_persisted(impl, shadow, prop, i, op))
+            elif not impl.font.dirty and status == "ok":
+                # the font says there is nothing to save: then the content must be what the UFO was last seen to hold
+                # (judged against the shadow content, not against what the font reports about itself)
+                stats["clean_after_op"] = stats.get("clean_after_op", 0) + 1
+                if persisted is None or strip_order(fg.expected_dump(shadow.s)) != persisted:
+                    stats["clean_after_change"] = stats.get("clean_after_change", 0) + 1
+                    viol.extend(check_clean_is_persisted(impl, shadow, prop, i, op))
         if not viol:
             # memory must equal the content too (reads every lazily loaded part now)
             was_dirty = bool(impl.font.dirty)
@@ -1011,6 +1028,107 @@ def scenario(rng, spec):
     if k == 8 and spec.get("guidelines"):
         return [["fguideattr", 0, "y", 333]]
     return []
+
+
+def _edit_everywhere(spec_layers):
+    """one cheap content edit in every layer that holds a glyph, and a new glyph in every layer"""
+    ops = []
+    for l in spec_layers:
+        for gn in sorted(l["glyphs"])[:1]:
+            ops.append(["gfield", l["name"], gn, "width", 901])
+        ops.append(["gnew", l["name"], "space"])
+    return ops
+
+
+def neighbourhood(case, step, rng):
+    """histories around a step at which model and code parted: the history up to (and including) that step, followed
+    by what the property speaks about — an in-place save (whose read-back, orphan, flag and second-save oracles then
+    judge the UFO against the shadow content), the step repeated or undone before the save, further edits and a second
+    in-place save, a complete save in between.  Everything is judged by the direct oracles of run_case."""
+    ops = case["ops"]
+    n_setup = len(model_lines(case)) - len(ops)
+    j = max(0, min(len(ops) - 1, step - n_setup))
+    structure = case.get("structure", "package")
+    save = ["save", "inplace", structure]
+    save_new = ["save", "new", structure]
+    sh = Shadow(case["spec"])
+    for o in ops[:j + 1]:
+        if o[0] != "save":
+            sh.do(o)
+    layers_now = sh.s["layers"]
+    edits = _edit_everywhere(layers_now)
+    op = ops[j]
+    k = op[0]
+    undo = []
+    if k == "img":
+        undo = [[["img", op[1], None]], [["img", op[1], 5]], [["img", op[1], 5], ["img", op[1], None]],
+                [["img", op[1], None], ["img", op[1], 5], ["img", op[1], None]]]
+    elif k == "dat":
+        undo = [[["dat", op[1], None]], [["dat", op[1], 5]], [["dat", op[1], 5], ["dat", op[1], None]],
+                [["dat", op[1], None], ["dat", op[1], 5], ["dat", op[1], None]]]
+    elif k == "gdel":
+        undo = [[["gnew", op[1], op[2]]], [["gnew", op[1], op[2]], ["gdel", op[1], op[2]]]]
+    elif k in ("gnew", "ginsert"):
+        undo = [[["gdel", op[1], op[2]]], [["gdel", op[1], op[2]], ["gnew", op[1], op[2]]]]
+    elif k == "grename":
+        undo = [[["grename", op[1], op[3], op[2]]], [["gnew", op[1], op[2]]]]
+    elif k == "lrename":
+        undo = [[["lrename", op[2], op[1]]], [["lnew", op[1]]], [["lnew", op[1]], ["ldel", op[1]], ["lrename", op[2], op[1]]]]
+    elif k == "ldel":
+        undo = [[["lnew", op[1]], ["gnew", op[1], "A"]]]
+    elif k == "lnew":
+        undo = [[["ldel", op[1]]], [["ldel", op[1]], ["lnew", op[1]]]]
+    seen = set()
+
+    def emit(new_ops):
+        key = _json.dumps(new_ops, sort_keys=True, default=str)
+        if key in seen or new_ops == ops:
+            return None
+        seen.add(key)
+        return dict(case, ops=new_ops)
+
+    base = ops[:j + 1]
+    # histories that make the NEXT in-place save replay a non-trivial layer action history (rename away and back around
+    # a short-lived namesake; delete and re-create under the same name before a complete save; …)
+    layer_stress = []
+    names = [l["name"] for l in layers_now]
+    free = [n for n in fg.LAYER_NAMES if n not in names]
+    others = sorted([l for l in layers_now if l["name"] != sh.s["default"]], key=lambda l: -len(l["glyphs"]))
+    for l in others[:2]:
+        x = l["name"]
+        if free:
+            y = free[0]
+            layer_stress.append([["lrename", x, y], ["lnew", x], ["ldel", x], ["lrename", y, x], save])
+        layer_stress.append([["ldel", x], ["lnew", x], ["gnew", x, "A"], save_new] + edits + [save])
+        if free:
+            layer_stress.append([["lrename", x, free[0]], ["lnew", x], ["gnew", x, "A"], save_new] + edits + [save])
+    if free:
+        d = sh.s["default"]
+        layer_stress.append([["lrename", d, free[0]], save] + edits + [save])
+    undone = [u + [save] for u in undo] + [u + [save_new] + edits + [save] for u in undo]
+    generic = [[save], [save, save]]
+    generic.append([op, save] if k != "save" else edits + [save])
+    generic += [edits + [save], [save] + edits + [save], [save_new] + edits + [save], edits + [save_new] + edits + [save]]
+    generic += [[save] + u + [save] for u in undo]
+    if k.startswith("l") or k == "save":
+        tails = layer_stress[:3] + undone + generic[:1] + layer_stress[3:] + generic[1:]
+    else:
+        tails = generic[:1] + undone + generic[1:] + layer_stress
+    cands = [base + t for t in tails]
+    # the rest of the original history, then the same endings
+    cands += [ops + [save], ops + edits + [save], ops + [save_new] + edits + [save]]
+    n = 0
+    for c in cands:
+        v = emit(c)
+        if v is not None:
+            n += 1
+            yield v
+            if n >= 14:          # leave some of the search budget to the other diverging histories
+                break
+    # every unread glyph stays unread: the save paths that skip clean glyphs are the interesting ones
+    if case.get("preread_glyphs") or case.get("preread"):
+        for c in cands[:4]:
+            yield dict(case, ops=c, preread=[], preread_glyphs=[])
 
 
 def gen_case(rng, tier, save_modes, structures=("package", "zip"), maxops=None, p_save=0.12, sub_edits=0.0):
